@@ -85,6 +85,11 @@ func registerFunctions() {
 	// vf_fail(x): identity that fails at the failAt-th invocation (counted over all vf_fail calls)
 	genql.RegisterFunction("vf_fail", func(q *genql.Query, cur genql.Map, o *genql.FunctionOptions, args []any) (any, error) {
 		n := callCount.Add(1)
+		if len(args) == 1 {
+			callLogMu.Lock()
+			callLog = append(callLog, []any{"fail", args[0]})
+			callLogMu.Unlock()
+		}
 		if f := failAt.Load(); f != 0 && n == f {
 			return nil, fmt.Errorf("injected fault at call %d", n)
 		}
@@ -493,6 +498,73 @@ func opQuery(r *req) (out resp) {
 	return
 }
 
+// opSeq runs several queries one after the other on ONE shared document object (the first may be
+// made to fail); used for "the library stays usable after a failure"
+func opSeq(r *req) (out resp) {
+	out = resp{}
+	var qs []struct {
+		SQL    string `json:"sql"`
+		FailAt int64  `json:"failAt"`
+	}
+	if err := json.Unmarshal(r.Args, &qs); err != nil {
+		out["bad"] = err.Error()
+		return
+	}
+	docAny, err := decodeVal(r.Doc)
+	if err != nil {
+		out["bad"] = err.Error()
+		return
+	}
+	doc, ok := docAny.(map[string]any)
+	if !ok {
+		out["bad"] = "doc must be an object"
+		return
+	}
+	before, _ := encode(doc)
+	var results []any
+	for _, q := range qs {
+		sub := &req{SQL: q.SQL, FailAt: q.FailAt}
+		resetInstr(sub)
+		one := resp{}
+		func() {
+			defer func() {
+				if p := recover(); p != nil {
+					one["r"] = "panic"
+					one["msg"] = fmt.Sprint(p)
+				}
+			}()
+			qq, err := genql.New(doc, q.SQL)
+			if err != nil {
+				one["r"] = "error"
+				return
+			}
+			rs, err := qq.Exec()
+			if err != nil {
+				one["r"] = "error"
+				if rs != nil {
+					one["rowsWithError"] = len(rs)
+				}
+				return
+			}
+			if rs == nil {
+				rs = []any{}
+			}
+			s, _ := encode(rs)
+			one["r"] = "ok"
+			one["v"] = json.RawMessage(s)
+		}()
+		one["calls"] = callCount.Load()
+		results = append(results, one)
+	}
+	after, _ := encode(doc)
+	out["r"] = "ok"
+	out["results"] = results
+	if before != after {
+		out["docChanged"] = true
+	}
+	return
+}
+
 func opReader(r *req) (out resp) {
 	out = resp{}
 	doc, err := decodeVal(r.Doc)
@@ -638,6 +710,8 @@ func handle(r *req) resp {
 			out["v"] = canonicalSQL(st)
 		})
 		return out
+	case "seq":
+		return opSeq(r)
 	case "conc":
 		return opConc(r.Args)
 	case "ping":
